@@ -3,6 +3,10 @@ package main
 import (
 	"encoding/json"
 	"fmt"
+	"net/url"
+	"os"
+	"path"
+	"path/filepath"
 	"sort"
 	"strings"
 	"sync"
@@ -112,10 +116,22 @@ type expOpts struct {
 	Refuse                   map[string]bool
 	Cache                    spec.ResolutionCache
 	Base                     string // spelling of the root location; default = world.Root
+	NoBase                   bool   // no location given: the library anchors the in-memory root at <cwd>/.root
 }
 
 func (o expOpts) String() string {
+	if o.NoBase {
+		return fmt.Sprintf("skip=%v continue=%v absolute=%v no-base-location", o.Skip, o.Continue, o.Absolute)
+	}
 	return fmt.Sprintf("skip=%v continue=%v absolute=%v", o.Skip, o.Continue, o.Absolute)
+}
+
+// atPseudoRoot: the single-document world as the library sees it when no location is given (ExpandSpec with an empty
+// RelativeBase): the in-memory root stands at file://<cwd>/.root
+func atPseudoRoot(w *refgraph.World) *refgraph.World {
+	cwd, _ := os.Getwd()
+	u := (&url.URL{Scheme: "file", Path: path.Join(filepath.ToSlash(cwd), ".root")}).String()
+	return &refgraph.World{Root: u, Docs: map[string]wire.V{u: w.Docs[w.Root]}}
 }
 
 func decodeSwagger(v wire.V) (*spec.Swagger, error) {
@@ -138,6 +154,9 @@ func expandWorld(w *refgraph.World, o expOpts) expandResult {
 	base := o.Base
 	if base == "" {
 		base = w.Root
+	}
+	if o.NoBase {
+		base = ""
 	}
 	opts := &spec.ExpandOptions{RelativeBase: base, SkipSchemas: o.Skip, ContinueOnError: o.Continue, AbsoluteCircularRef: o.Absolute,
 		PathLoader: loaderFor(w, log, o.Refuse)}
@@ -309,6 +328,15 @@ func runC02C03(c *Ctx, which string) {
 				}
 			}
 			continue
+		}
+		if len(w.Docs) == 1 && i%5 == 2 {
+			// no location given at all: same statements, with the in-memory root at the library's pseudo location
+			w = atPseudoRoot(w)
+			g = w.BuildGraph()
+			in = normRootDoc(w)
+			o.NoBase = true
+			cs["world"], cs["options"] = worldJSON(w), o.String()
+			c.Hit("no-base-location")
 		}
 		res := expandWorld(w, o)
 		before := len(c.Res.Failures)
